@@ -252,6 +252,31 @@ def run_cube(case, ctx):
                 se = np.asarray(s.error.to(un).value)
                 if any(not close(se[a][p], case['unc'][m][a][i]) for a in range(nap) for p, i in enumerate(idx)):
                     fail('%s: get_sed(%s) errors differ from the model put in' % (what, case['names'][m]), 'c12:get_sed')
+        # a second cube in the same process holding the same model names at other positions: extraction is by NAME
+        if nm >= 2:
+            perm = list(range(nm))[::-1] if nm % 2 else list(range(1, nm)) + [0]
+            c2 = SEDCube()
+            with must_succeed('building a second SEDCube'):
+                c2.names = np.array([case['names'][i] for i in perm])
+                c2.distance = case['distance_kpc'] * u.kpc
+                c2.wav = np.array(case['wav']) * u.micron
+                if case['with_ap']:
+                    c2.apertures = ap_quantity(case, nap)
+                c2.val = np.array([[[case['val'][i][a][w] for w in range(len(case['wav']))] for a in range(nap)] for i in perm]) * un
+                c2.unc = np.array([[[case['unc'][i][a][w] for w in range(len(case['wav']))] for a in range(nap)] for i in perm]) * un
+            for cube, what2 in ((r, 'the cube read back'), (c2, 'a second cube with the models in another order'), (r, 'the first cube again')):
+                for m in range(nm):
+                    with must_succeed('SEDCube.get_sed'):
+                        sx = cube.get_sed(case['names'][m])
+                    sf = np.asarray(sx.flux.to(un).value)
+                    sw = list(sx.wav.to(u.micron).value)
+                    for a in range(nap):
+                        for i, w in enumerate(case['wav']):
+                            p_ = min(range(len(sw)), key=lambda q: abs(sw[q] - w))
+                            if not close(sf[a][p_], case['val'][m][a][i]):
+                                fail('get_sed(%r) on %s returns %r at %r micron (aperture %d); that model has %r there' % (
+                                    case['names'][m], what2, sf[a][p_], w, a, case['val'][m][a][i]), 'c12:get_sed_wrong_model')
+            labels.add('two_cubes_same_names')
         # independent reader
         f = pkgio.read_cube(path)
         for p in range(len(f['wav'])):
